@@ -253,7 +253,24 @@ func c18RunSet(res *c18Res, feeA, feeI uint, set []c18Proof, onlyAmount int, onl
 			res.Keys = append(res.Keys, caseKey)
 			rp := map[string]any{"fee_active": feeA, "fee_inactive": feeI, "set": set, "amount": amount, "fees": fees}
 			ctx := fmt.Sprintf("wallet {%s} (balance %d), input_fee_ppk active %d / inactive %d, Send(%d, includeFees=%v)", name, balance, feeA, feeI, amount, fees)
-			cls := fmt.Sprintf("fees=%v/ppk=%d", fees, feeA)
+			// finding classes: by fee regime (the known fee fix-point defect needs >= 500 ppk) and by whether the content mixes
+			// active and inactive keysets (the known selection defect needs both)
+			ppkCls := "ppk<500"
+			if feeA >= 500 {
+				ppkCls = "ppk>=500"
+			}
+			cls := fmt.Sprintf("fees=%v/%s", fees, ppkCls)
+			mix := "single-keyset-content"
+			if hasInactive {
+				for _, p := range set {
+					if !p.Inactive {
+						mix = "mixed-keyset-content"
+					}
+				}
+				if mix != "mixed-keyset-content" {
+					mix = "inactive-only-content"
+				}
+			}
 			if sendErr != nil {
 				res.Refused++
 				// liveness: sufficient condition of the statement
@@ -262,7 +279,7 @@ func c18RunSet(res *c18Res, feeA, feeI uint, set []c18Proof, onlyAmount int, onl
 					need += ceilFee(uint(bits.OnesCount64(amount)+3) * maxPpk)
 				}
 				if need <= balance {
-					res.V = append(res.V, rt.Violation{Property: "C18", Key: "C18/send-refused-although-funds-suffice/" + cls, What: fmt.Sprintf("%s failed (%v) although amount %d + fee of spending every proof held %d (+ fee bound of the proofs sent) <= balance %d", ctx, sendErr, amount, feeAll, balance), Replay: rp})
+					res.V = append(res.V, rt.Violation{Property: "C18", Key: "C18/send-refused-although-funds-suffice/" + mix, What: fmt.Sprintf("%s failed (%v) although amount %d + fee of spending every proof held %d (+ fee bound of the proofs sent) <= balance %d", ctx, sendErr, amount, feeAll, balance), Replay: rp})
 				}
 				continue
 			}
@@ -347,7 +364,7 @@ func c18RunSet(res *c18Res, feeA, feeI uint, set []c18Proof, onlyAmount int, onl
 					if got > amount {
 						k = "more"
 					}
-					res.V = append(res.V, rt.Violation{Property: "C18", Key: "C18/recipient-nets-" + k + "-than-requested/ppk=" + fmt.Sprint(feeA), What: fmt.Sprintf("%s: the recipient nets %d after redeeming %d proofs worth %d (mint fee %d), not the requested %d", ctx, got, len(sent), sum, sentFee, amount), Replay: rp})
+					res.V = append(res.V, rt.Violation{Property: "C18", Key: "C18/recipient-nets-" + k + "-than-requested/" + ppkCls, What: fmt.Sprintf("%s: the recipient nets %d after redeeming %d proofs worth %d (mint fee %d), not the requested %d", ctx, got, len(sent), sum, sentFee, amount), Replay: rp})
 				}
 			}
 			if len(res.Samples) < 2 {
